@@ -292,22 +292,38 @@ CHECKS["C02"] = dict(
 )
 CHECKS["C06"] = dict(
     category="model_checking",
-    text="QBFTInstance.tla is the single-instance restriction of QBFT.tla: operator 1 against an arbitrary environment "
-         "(every other member adversarial, so every well-formed message of the grammar is receivable at any time) plus "
-         "field-mutated messages (wrong height, bad signature, non-member / zero / two signers, root mismatch, malformed "
-         "justification, unknown type) that must be refused. TLC exhausts the model for committee 4 (<= 2 rounds) and "
-         "generates behaviours in six families (all classes, round-change heavy with the instance leading round 2, "
-         "committee 7, mutants); thorough adds one test per node of a dumped state graph. The oracle is the reference "
-         "implementation: every behaviour is stepped through the node's instance, the node's instance with "
-         "instance.Compact after every message, and the ssv-spec v0.3.7 qbft.Instance with identical keys and "
-         "byte-identical inputs; accept/reject, encoded broadcasts, decided flag/value/certificate and State.GetRoot() "
-         "after identical compaction are compared after every step.",
-    design_ref="DESIGN.md section 5 C06",
-    note="The reference implementation (pinned ssv-spec module) is the trusted oracle; the TLA+ model generates inputs and "
-         "predicts accept/reject (mismatch = divergence). The signer ORDER of the aggregated commit is normalised (the node "
-         "sorts it, the reference does not). Committees 4 and 7, rounds <= 5.",
-    technique="TLA+ single-instance model as test generator (TLC exhaustive + simulation + state-graph cover); differential "
-              "execution against the reference ssv-spec instance",
+    text="Two directions. (1) Specification -> code: QBFTInstance.tla is the single-instance restriction of QBFT.tla (operator 1 "
+         "against an arbitrary environment: every well-formed message of the grammar receivable at any time, plus field mutants "
+         "that must be refused). TLC exhausts it for committee 4 (<= 2 rounds; thorough also 3 rounds, offset 3, committee 7) and "
+         "generates behaviours in eight families (incl. timeouts up to the round cut-off; thorough adds one test per node of a "
+         "dumped state graph). Every behaviour is stepped through the node's instance, the node's instance with instance.Compact "
+         "where the runner compacts, and the ssv-spec v0.3.7 qbft.Instance with identical keys and byte-identical inputs; "
+         "accept/reject, encoded broadcasts, decision/certificate and State.GetRoot() are compared after every step. (2) Code -> "
+         "specification: every message-processing, timeout and controller scenario of the pinned reference test kit (ssv-spec "
+         "qbft/spectest.AllTests, wired as protocol/v2/qbft/spectest wires it: 165 of 206 scenarios, 61 from crafted pre-states; 39 "
+         "excluded as not calling an instance, 2 as outside the model's round range) and seeded random executions (200 quick / 2000 "
+         "thorough: Byzantine builders, mutants, timeouts, certificates) are recorded from the REAL instance / controller, one event "
+         "per public call (abstract message fields, facts computed with the reference library's exported predicates, result, "
+         "projected post-state, broadcasts). TLC validates them against QBFTInstanceTrace.tla: model steps "
+         "DoProposal/DoPrepare/DoCommit/DoRC/Start/Timeout/RecvDecided with the model's own Justified/ValidRC/CertOK; refusals are "
+         "named stuttering steps guarded by the negation of the model's enabling condition, so a wrong accept/refuse, post-state or "
+         "broadcast rejects the trace. Each call is also made on the reference instance/controller. A rejected trace is a "
+         "violation only if node and reference disagree on accept/reject, broadcast, decision or state root in it; otherwise it is "
+         "a model imprecision (divergence). A disagreement with the reference is a violation regardless.",
+    design_ref="DESIGN.md section 5 C06, section 10.3",
+    note="The reference implementation is the oracle; the TLA+ model generates inputs and predicts accept/reject forwards and explains "
+         "recorded executions backwards. The signer order of the aggregated commit is normalised. Trace direction: the environment "
+         "holds every key (kit scenarios sign for operator 1), so signatures are logged facts (Weaken = noSigCheck reading of "
+         "Forgeable); the leader function comes from the trace (the kit's constant leader via cfg override of Leader). "
+         "Controller-level differences between node and reference are outside C06 and only counted: re-broadcast of a grown "
+         "certificate, and the rule for storing a further certificate. Known model imprecisions are avoided by the generator and "
+         "counted if seen: a single commit beside a stored certificate, and the round moving back on a certificate then forward "
+         "again. The binding self-test corrupts one accept and one post-state round and requires rejection at that line. "
+         "Committees 4, 7 (10, 13 kit happy flows); rounds <= 16. Known finding C06:compaction-changes-output-after-decision.",
+    technique="TLA+ single-instance model as test generator (TLC exhaustive + simulation + state-graph cover) with differential "
+              "execution against the reference ssv-spec instance; TLC trace validation (pre-state TraceInit, ENABLED-guarded Reject "
+              "steps, high-water-mark acceptance, parallel chunks) of the repository's reference-kit scenarios and random executions "
+              "recorded from the real instance/controller",
 )
 CHECKS["C07"] = dict(
     category="model_checking",
